@@ -171,6 +171,18 @@ pub fn subjects(tier: Tier) -> Vec<Subject> {
         register: false,
     });
     out.push(Subject {
+        name: "join-loop-several-assigned-variables".into(),
+        src: "pub fn main(a: [(u8, u16); 3], b: [(u8, u16); 2], z: u16) -> (u16, u16, u8, [u16; 2], bool) {\n  let mut sum = z;\n  let mut xor = 0u16;\n  let mut keys = 0u8;\n  let mut last = [0u16; 2];\n  let mut any = false;\n  for ((k, x), (_, y)) in join_iter(a, b) {\n    sum = sum + x;\n    xor = xor ^ y;\n    keys = keys + k;\n    last[0] = x / y;\n    last[1] = y;\n    any = true;\n  }\n  (sum, xor, keys, last, any)\n}\n".into(),
+        consts: vec![],
+        register: false,
+    });
+    out.push(Subject {
+        name: "branches-and-arms-several-assigned-variables".into(),
+        src: "enum K { A, B(u8), C }\npub fn main(k: K, c: bool, x: u8, y: u8) -> (u8, u8, u8, [u8; 2]) {\n  let mut p = x;\n  let mut q = y;\n  let mut r = 0u8;\n  let mut arr = [x, y];\n  if c && x > 3u8 {\n    p = p + 1u8;\n    q = q / x;\n    arr[1] = p;\n  } else {\n    r = q - p;\n    arr[0] = r;\n  }\n  match k {\n    K::A => {\n      p = q;\n      r = r ^ 1u8;\n    }\n    K::B(v) => {\n      q = v * 2u8;\n      arr[0] = v;\n    }\n    K::C => {}\n  }\n  for e in arr {\n    p = p ^ e;\n    q = q | e;\n  }\n  (p, q, r, arr)\n}\n".into(),
+        consts: vec![],
+        register: true,
+    });
+    out.push(Subject {
         name: "pub-fn-without-params-called".into(),
         src: "pub fn a(x: u8) -> u8 {\n  x + b() + c()\n}\npub fn b() -> u8 {\n  1u8\n}\npub fn c() -> u8 {\n  b()\n}\n".into(),
         consts: vec![],
